@@ -96,7 +96,15 @@ func mergeOrder(t *simrt.Tape, lens []int) []int {
 
 // genHistory draws a multi-session history in which PIDs and session ids are not reused.
 func genHistory(t *simrt.Tape, cfg histCfg) *History {
-	k := NewKaudit()
+	var k *Kaudit
+	switch t.Choose(4, "kernel.clock") {
+	case 1:
+		k = NewKauditAt(time.Now().Add(-time.Hour)) // a backlog: kernel timestamps an hour behind the daemon's clock
+	case 2:
+		k = NewKauditAt(time.Now()) // in step with the daemon's clock
+	default:
+		k = NewKaudit() // unrelated epoch (ahead of the daemon's clock)
+	}
 	w := &L1World{}
 	n := 1 + t.Choose(cfg.MaxSessions, "nsessions")
 	for si := 0; si < n; si++ {
@@ -167,6 +175,9 @@ func genHistory(t *simrt.Tape, cfg histCfg) *History {
 		}
 		s.Events = append(s.Events, e)
 		stream = append(stream, HOp{Kind: "event", S: si, E: i})
+		if t.Choose(12, "clock.stepback") == 0 {
+			k.StepBack(10000 + int64(t.Choose(5000, "stepback.ms")))
+		}
 		if cfg.Noise && t.Choose(5, "noise") == 0 {
 			ses := ""
 			if t.Choose(2, "noise.ses") == 1 {
